@@ -71,6 +71,15 @@ static int free_count = 0;
  * @ingroup DOXGRP_MEM
  */
 static spifmem_memrec_t malloc_rec;
+
+#ifdef LIBAST_VERIF
+/* Verification hook (read-only):  address of the private malloc table. */
+const spifmem_memrec_t *
+spifmem_verif_malloc_rec(void)
+{
+    return &malloc_rec;
+}
+#endif
 /**
  * Allocated pixmaps.
  *
